@@ -287,7 +287,10 @@ def check_all(ctx, tags, ran, periods, ev1, ev2, evo, rec_metric, rec_obs, rec_l
                 vals = [v for _, v in rec_metric[nm]]
                 if vals and (ev.get_value(nm, -1) != vals[-1] or list(getattr(ev, nm))[-1] != vals[-1]):
                     bad.append(f"editing the dict handed out as `last` changed the recorded history of {nm!r}")
-            ev.last = {nm: rec_metric[nm][-1][1] for nm in names if rec_metric[nm]}
+            try:
+                ev.last = {nm: rec_metric[nm][-1][1] for nm in names if rec_metric[nm]}
+            except AttributeError:  # a read-only attribute on a refactored tree: nothing to restore
+                pass
         if bad:
             ctx.violation("metric-records", "MetricEvaluator records disagree with what was computed: " + "; ".join(bad[:3]),
                           tags=dict(tags, cb="MetricEvaluator"), witness=wit)
